@@ -17,6 +17,9 @@
 //   (2 g0 n (tid...))    n worker goroutines; entry tid = that goroutine performs one whole
 //                        WithContext while the others wait               -> (0 (tid id)...)
 //   (3 n m)              n goroutines x m (WithContext; Tf) at full speed  -> (0 total duplicates)
+//   (9 pid (m..) (call..))  ONE operand slice (spare capacity behind it) spread into the calls (lvl fn kind ref)
+//                        -> (0 (x<line>..) operands-unchanged)
+//   (10 n m (m..))       n goroutines spread one shared operand slice into m calls each -> (0 lines bad unchanged)
 //   (8 n m)              n goroutines: a parent with id, m creations derived from it  -> (0 fresh dups bad-aliases)
 //   (5 n m)              n goroutines x m logging calls, all levels       -> (0 lines bad)
 //   (6 pid (op...))      writer management, one goroutine: (0 w) Switch(writer w), (1) Close(),
@@ -728,6 +731,210 @@ func vC18LogStress(c vSx) (vSx, vSx, []vC18Fail, bool) {
 	return c, vL(vZ(0), vI(len(ws)), vI(nbad)), fails, switches > n
 }
 
+// ---- kinds 9 and 10: ONE operand slice with spare capacity, spread into several calls
+// the operand array: the operands, then a spare-capacity region filled with sentinels; calls get full[:n]
+func vC18Operands(ms []string) (args []interface{}, full []interface{}, saved []interface{}) {
+	full = make([]interface{}, len(ms)+3)
+	for i, m := range ms {
+		full[i] = m
+	}
+	for i := len(ms); i < len(full); i++ {
+		full[i] = fmt.Sprintf("SPARE%d", i)
+	}
+	saved = append([]interface{}(nil), full...)
+	return full[:len(ms)], full, saved
+}
+func vC18SameOperands(full, saved []interface{}) string {
+	for i := range saved {
+		if full[i] != saved[i] {
+			return fmt.Sprintf("element %d of the caller's operand array (len %d, cap %d) changed from %v to %v", i, len(saved)-3, len(saved), saved[i], full[i])
+		}
+	}
+	return ""
+}
+
+func vC18CtxOf(kind, ref int) (Context, int, int, bool) {
+	switch kind {
+	case 0:
+		return nil, 0, 0, false
+	case 1:
+		return &vC18Obj{cid: ref}, 1, ref, true
+	case 2:
+		if ref >= 0 {
+			return context.WithValue(context.Background(), cidKey, ref), 2, ref, true
+		}
+		return context.Background(), 2, 0, false
+	}
+	return vC18Other{x: ref}, 3, 0, false
+}
+
+// one logging call through level lvl (0 info .. 3 error), Println-style (fn 0) or Printf-style
+func vC18Call(lvl, fn, variant int, ctx Context, format string, args []interface{}) {
+	call := func(l Logger, short func(Context, ...interface{}), shortf func(Context, string, ...interface{})) {
+		switch {
+		case fn == 0 && variant == 0:
+			short(ctx, args...)
+		case fn == 0:
+			l.Println(ctx, args...)
+		case variant == 0:
+			shortf(ctx, format, args...)
+		default:
+			l.Printf(ctx, format, args...)
+		}
+	}
+	switch lvl {
+	case 1:
+		call(Trace, T, Tf)
+	case 2:
+		call(Warn, W, Wf)
+	case 3:
+		call(Error, E, Ef)
+	default:
+		call(Info, I, If)
+	}
+}
+
+func vC18Spread(c vSx) (vSx, vSx, []vC18Fail, bool) {
+	var fails []vC18Fail
+	bad := func(o, d string) {
+		if len(fails) < 20 {
+			fails = append(fails, vC18Fail{o, d})
+		}
+	}
+	pid := os.Getpid()
+	c = vL(vZ(9), vI(pid), c.l[2], c.l[3])
+	var ms []string
+	for _, m := range c.l[2].l {
+		if !m.isBytes() {
+			return c, vL(vZ(-1)), nil, false
+		}
+		ms = append(ms, string(m.b))
+	}
+	w := &vC18CapCloser{}
+	Switch(w)
+	defer Close()
+	savedInfo := Info
+	Info = NewLoggerPlus(log.New(&w.vC18Cap, logInfoLabel, vC18Flags))
+	defer func() { Info = savedInfo }()
+	args, full, saved := vC18Operands(ms)
+	format := strings.Repeat("%v", len(ms))
+	var lines []vSx
+	kinds := map[int]bool{}
+	for i, call := range c.l[3].l {
+		if !call.isList() || len(call.l) != 4 {
+			return c, vL(vZ(-1)), nil, false
+		}
+		lvl, fn, kind, ref := call.l[0].int(), call.l[1].int(), call.l[2].int(), call.l[3].int()
+		if lvl < 0 || lvl > 3 {
+			return c, vL(vZ(-1)), nil, false
+		}
+		ctx, kd, cid, hasCid := vC18CtxOf(kind, ref)
+		kinds[kd] = true
+		w.take()
+		if fn != 0 {
+			fn = 1
+		}
+		vC18Call(lvl, fn, i%2, ctx, format, args) // the SAME slice every time
+		ws := w.take()
+		msg := strings.Join(ms, " ")
+		if fn == 1 {
+			msg = strings.Join(ms, "")
+		}
+		line := []byte{}
+		if len(ws) != 1 {
+			bad("one-write", fmt.Sprintf("call %d made %d Write calls", i, len(ws)))
+		} else {
+			gl, rest, z, ok := vC18Split(ws[0])
+			if !ok || gl != lvl {
+				bad("line-header", fmt.Sprintf("call %d (level %d) wrote %q", i, lvl, ws[0]))
+				line = ws[0]
+			} else {
+				line = z
+				if d := vC18LineOK(rest, vC18WantPrefix(pid, kd, cid, hasCid), msg); d != "" {
+					bad("line-format", fmt.Sprintf("call %d spreading the shared operands: %s", i, d))
+				}
+			}
+		}
+		lines = append(lines, vB(line))
+		if d := vC18SameOperands(full, saved); d != "" {
+			bad("operands-untouched", fmt.Sprintf("after call %d: %s", i, d))
+		}
+	}
+	same := vC18SameOperands(full, saved) == ""
+	return c, vL(vZ(0), vLs(lines), vBool(same)), fails, len(kinds) >= 2
+}
+
+func vC18SpreadConc(c vSx) (vSx, vSx, []vC18Fail, bool) {
+	var fails []vC18Fail
+	bad := func(o, d string) {
+		if len(fails) < 20 {
+			fails = append(fails, vC18Fail{o, d})
+		}
+	}
+	n, m := c.l[1].int(), c.l[2].int()
+	if n < 1 || n > 64 || m < 1 || m > 5000 || !c.l[3].isList() {
+		return c, vL(vZ(-1)), nil, false
+	}
+	var ms []string
+	for _, x := range c.l[3].l {
+		if !x.isBytes() {
+			return c, vL(vZ(-1)), nil, false
+		}
+		ms = append(ms, string(x.b))
+	}
+	pid := os.Getpid()
+	w := &vC18CapCloser{}
+	Switch(w)
+	defer Close()
+	args, full, saved := vC18Operands(ms) // shared read-only by all goroutines
+	format := strings.Repeat("%v", len(ms))
+	var wg sync.WaitGroup
+	start := make(chan bool)
+	for g := 0; g < n; g++ {
+		wg.Add(1)
+		go func(g int) {
+			defer wg.Done()
+			<-start
+			ctx, _, _, _ := vC18CtxOf(g%4, 500+g)
+			for i := 0; i < m; i++ {
+				vC18Call(1+(g+i)%3, i%2, (i/2)%2, ctx, format, args)
+			}
+		}(g)
+	}
+	close(start)
+	if !vC18Wait(&wg, time.Duration(10+n*m/5000)*time.Second) {
+		return c, vL(vZ(-2)), []vC18Fail{{"goroutine-hung", "logging goroutines did not finish (abandoned)"}}, false
+	}
+	ws := w.take()
+	nbad := 0
+	// every line is prefix(ctx of SOME goroutine) + the operands as passed
+	for _, p := range ws {
+		_, rest, _, ok := vC18Split(p)
+		okLine := false
+		if ok {
+			for g := 0; g < n && !okLine; g++ {
+				_, kd, cid, hasCid := vC18CtxOf(g%4, 500+g)
+				pre := vC18WantPrefix(pid, kd, cid, hasCid)
+				if vC18LineOK(rest, pre, strings.Join(ms, " ")) == "" || vC18LineOK(rest, pre, strings.Join(ms, "")) == "" {
+					okLine = true
+				}
+			}
+		}
+		if !okLine {
+			nbad++
+			bad("line-format", fmt.Sprintf("a line is not prefix + the shared operands: %q", p))
+		}
+	}
+	if len(ws) != n*m {
+		bad("one-write", fmt.Sprintf("%d calls made %d Write calls", n*m, len(ws)))
+	}
+	d := vC18SameOperands(full, saved)
+	if d != "" {
+		bad("operands-untouched", d)
+	}
+	return c, vL(vZ(0), vI(len(ws)), vI(nbad), vBool(d == "")), fails, n >= 2
+}
+
 // ---- kind 8: nested creation from many goroutines: every goroutine makes a "server" context with id,
 // then m derived ones: WithContext(WithCancel(parent)), WithContext(WithValue(parent)),
 // AliasContext(parent, nil), AliasContext(parent, background) -- all FRESH -- and
@@ -1269,6 +1476,10 @@ func TestVerifC18(t *testing.T) {
 			c, obs, fails, nt = vC18Stress(c)
 		case kind == 5 && len(c.l) == 3:
 			c, obs, fails, nt = vC18LogStress(c)
+		case kind == 9 && len(c.l) == 4 && c.l[2].isList() && c.l[3].isList():
+			c, obs, fails, nt = vC18Spread(c)
+		case kind == 10 && len(c.l) == 4 && c.l[1].isInt() && c.l[2].isInt():
+			c, obs, fails, nt = vC18SpreadConc(c)
 		case kind == 8 && len(c.l) == 3 && c.l[1].isInt() && c.l[2].isInt():
 			c, obs, fails, nt = vC18Nested(c)
 		case kind == 6 && len(c.l) == 3 && c.l[2].isList():
@@ -1307,6 +1518,30 @@ func TestVerifC18(t *testing.T) {
 	}
 	for _, nm := range [][2]int{{16, 500}, {2, 2000}, {64, 50}} {
 		runOne(vL(vZ(8), vI(nm[0]), vI(nm[1]*k.N(1, 4))))
+	}
+	// one operand slice with spare capacity spread into consecutive / concurrent calls
+	for i, nm := range [][2]int{{2, 300}, {8, 100}, {16, 60}} {
+		var ms []vSx
+		for j := 0; j <= i; j++ {
+			ms = append(ms, vC18Msg(k.rnd))
+		}
+		runOne(vL(vZ(10), vI(nm[0]), vI(nm[1]*k.N(1, 5)), vLs(ms)))
+	}
+	for i, cnt := 0, k.N(150, 2000); i < cnt; i++ {
+		r := k.rnd
+		var ms, calls []vSx
+		for j, nmsg := 0, r.rng(1, 3); j < nmsg; j++ {
+			ms = append(ms, vC18Msg(r))
+		}
+		for j, nc := 0, r.rng(2, 8); j < nc; j++ {
+			kind := r.pickInt(0, 1, 2, 2, 3)
+			ref := r.pickInt(-1, 0, 7, 1000, 65535)
+			if kind == 1 {
+				ref = r.pickInt(0, 7, -5, 2147483647)
+			}
+			calls = append(calls, vL(vI(r.intn(4)), vI(r.intn(2)), vI(kind), vI(ref)))
+		}
+		runOne(vL(vZ(9), vZ(0), vLs(ms), vLs(calls)))
 	}
 	// writer management: goroutines logging across Switch / Close sequences
 	sw := func(w int) vSx { return vL(vZ(0), vI(w)) }
